@@ -1,3 +1,4 @@
 SPECIFICATION TSpec
 CONSTANT CHECKS = {"set"}
+CONSTANT Deviations = {}
 POSTCONDITION TraceAccepted
